@@ -1012,7 +1012,7 @@ fn main() {
     // Operand tuples: one per operation (two in thorough), taken a few steps down the diagonal so
     // that the operands are not 0/1/2 (which take the library's shortcuts). Quick sweeps one
     // variant per (field, operation name) (BigUint: two width variants per operation name).
-    let budget_runs: u64 = tier.pick(9_000, 1_000_000);
+    let budget_runs: u64 = tier.pick(10_000, 800_000);
     let mut chosen: Vec<(&String, &Case, &Hon)> = vec![];
     {
         let want = 1usize;
@@ -1118,31 +1118,15 @@ fn main() {
         swept,
         n_faults_per_idx
     ));
-    if std::env::var("C05_DEBUG_KEYS").is_ok() {
-        for (k, _) in fcases.iter().take(3) {
-            eprintln!("FAULT-CASE-KEY faults/{k}");
-        }
+    // round-robin over the operations (all first chunks, then all second chunks, ...): if the wall
+    // budget caps this phase, every operation has been swept to the same depth
+    {
+        let chunk_no = |k: &String| k.rsplit_once('#').and_then(|(_, n)| n.parse::<usize>().ok()).unwrap_or(0);
+        let mut order: Vec<usize> = (0..fcases.len()).collect();
+        order.sort_by_key(|i| (chunk_no(&fcases[*i].0), *i));
+        let mut tmp: Vec<Option<(String, (Case, Vec<u64>, Vec<(&'static str, Fault)>))>> = fcases.into_iter().map(Some).collect();
+        fcases = order.into_iter().map(|i| tmp[i].take().unwrap()).collect();
     }
-    cpu_marks.push(("faults", cpu_s()));
-    cx.run_cases("faults", &fcases, |(c, idxs, faults)| {
-        let mut out = CaseOut::batch();
-        fops::NONCANON_SEEN.with(|x| x.set(0));
-        vgad::explore_faults(c, kof(c).unwrap(), idxs, faults, &mut out);
-        out.counter("noncanonical_exposures_accepted:faults", fops::NONCANON_SEEN.with(|x| x.get()));
-        if std::env::var("C05_DEBUG_BENIGN").is_ok() {
-            for &idx in idxs {
-                for (fname, fault) in faults {
-                    let run = vgad::run_once(c, kof(c).unwrap(), vec![(idx, fault.clone(), Mode::Propagate)], false);
-                    if run.outcome == Outcome::Sat && run.applied.first().map(|a| a.changed) == Some(true) {
-                        let a = &run.applied[0];
-                        eprintln!("BENIGN {} idx={idx} fault={fname} col={} off={} marks={:?}", c.key().chars().take(90).collect::<String>(), a.column, a.offset, marks());
-                    }
-                }
-            }
-        }
-        out
-    });
-
     // ---- phase 4: instance binding and exposed-value lies on selected operand tuples per
     // operation (these depend on the circuit's wiring, not on the operand values)
     let mut bcases: Vec<(String, Case)> = vec![];
@@ -1249,6 +1233,32 @@ fn main() {
     cx.run_cases("pairs", &pcases, |(c, pairs)| {
         let mut out = CaseOut::batch();
         vgad::explore_pairs(c, kof(c).unwrap(), pairs, &f2, &mut out);
+        out
+    });
+
+    // ---- the fault sweep itself runs last (it is the largest phase)
+    if std::env::var("C05_DEBUG_KEYS").is_ok() {
+        for (k, _) in fcases.iter().take(3) {
+            eprintln!("FAULT-CASE-KEY faults/{k}");
+        }
+    }
+    cpu_marks.push(("faults", cpu_s()));
+    cx.run_cases("faults", &fcases, |(c, idxs, faults)| {
+        let mut out = CaseOut::batch();
+        fops::NONCANON_SEEN.with(|x| x.set(0));
+        vgad::explore_faults(c, kof(c).unwrap(), idxs, faults, &mut out);
+        out.counter("noncanonical_exposures_accepted:faults", fops::NONCANON_SEEN.with(|x| x.get()));
+        if std::env::var("C05_DEBUG_BENIGN").is_ok() {
+            for &idx in idxs {
+                for (fname, fault) in faults {
+                    let run = vgad::run_once(c, kof(c).unwrap(), vec![(idx, fault.clone(), Mode::Propagate)], false);
+                    if run.outcome == Outcome::Sat && run.applied.first().map(|a| a.changed) == Some(true) {
+                        let a = &run.applied[0];
+                        eprintln!("BENIGN {} idx={idx} fault={fname} col={} off={} marks={:?}", c.key().chars().take(90).collect::<String>(), a.column, a.offset, marks());
+                    }
+                }
+            }
+        }
         out
     });
 
